@@ -185,6 +185,12 @@ func VerifH_C12_SignVerify() {
 		return
 	}
 	tamper := vConfInt("tamper")
+	if tamper >= 0 {
+		// the genuine commit is verified first: a receiver has usually seen it before a forged commit arrives that
+		// carries the same signature link
+		okH, errH := VerifyBlockSignature(b, e.lsys)
+		vAssert(okH && errH == nil, "honest-block-verifies")
+	}
 	switch tamper {
 	case 0: // delta data / status
 		if kind == 1 {
